@@ -24,6 +24,12 @@ func c08Case(p lib.Parser, r *core.Rand) gen.Case {
 	switch p.Kind {
 	case "leaseset2":
 		l, sh := gen.LeaseSet2(r)
+		if r.Chance(1, 6) { // a KEY certificate with a long tail in the identity
+			if s, cr, isKey, ok := l.Dest.Cert.KeyTypes(); isKey && ok {
+				l.Dest.Cert = rm.KeyCert(s, cr, r.Bytes(gen.SizeLadder[r.Pick(len(gen.SizeLadder)-2)]))
+				sh["cert"] = "KEY+extra"
+			}
+		}
 		l.Options = rm.Mapping{Pairs: []rm.Pair{}}
 		sh["opts"] = 0
 		return gen.Case{Bytes: l.Encode(), Shape: sh}
@@ -35,6 +41,13 @@ func c08Case(p lib.Parser, r *core.Rand) gen.Case {
 		}
 		sh["opts"], sh["props"] = 0, 0
 		return gen.Case{Bytes: l.Encode(), Shape: sh}
+	}
+	// the variable-length part (certificate payload, inner data) at sizes up to the maximum: code
+	// that copies small inputs and keeps large ones
+	if r.Chance(1, 6) {
+		if cs, ok := gen.Sized(p.Kind, p.Arg, r); ok {
+			return cs
+		}
 	}
 	// correctly signed inputs half of the time, so that the verification outcome is among the
 	// things that must not change when the buffer is overwritten
